@@ -618,6 +618,11 @@ class Impl:
         self.pool[op["to"]] = tools.makeVaryingSequence(
             self.g(op["base"]), self._pad(ch, lens[0], 1), self._pad(nm, lens[1], "x"), self._pad(ar, lens[2], 0), self._pad(it, lens[3], [0]))
 
+    def op_heap_summary(self, op):
+        import heapwalk
+        res, self._heap_prev = heapwalk.summary(self.pool, op["vars"], getattr(self, "_heap_prev", {}))
+        return res
+
     def op_tl_repvary(self, op):
         ch, nm, ar, it = self._vars(op)
         lens = op["lens"]
@@ -835,6 +840,19 @@ def compare_op(op, ri, rm, tol=1e-9, errclass=True):
         if "err" in ri:
             return None  # the program referred to an object an earlier failed op did not create
         return f"{path}: model {rm['err']}"
+    if o == "heap.summary":
+        if "err" in ri or "err" in rm:
+            return f"{path}: impl {ri.get('err')} model {rm.get('err')}"
+        vi, vm = ri["ok"], rm["ok"]
+        if vm.get("fault"):
+            return "heap-fault: the reference-level model faulted (a method program broke the ownership discipline)"
+        si, sm = sorted(map(list, vi["shared"])), sorted(map(list, vm["shared"]))
+        if si != sm:
+            return f"heap-shared: objects sharing cells [a, b, mutable, filter dicts, arrays]: impl {si} != model {sm}"
+        extra = sorted(set(vi["changed"]) - set(vm["changed"]))
+        if extra:
+            return f"heap-changed: changed although the model says the last calls cannot touch them: {extra}"
+        return None
     if o in ("sq.awg", "sq.seqx") and "ok" in rm:
         return cmp_deferred(ri, rm["ok"], path, tol, cmp_awg if o == "sq.awg" else cmp_seqx)
     if ("err" in ri) != ("err" in rm):
